@@ -124,10 +124,96 @@ def _codec_cases(rng, n):
     return out
 
 
+_EXN = {"ValueError": "ValueError", "KeyError": "KeyError", "TypeError": "TypeError", "IndexError": "IndexError",
+        "TermMissingError": "TermMissing"}
+
+
+def _api(r, payload):
+    if r[0] == "ok":
+        return "AOk " + payload(r[1])
+    if r[0] == "exc":
+        return "AExc " + _EXN[r[1]]
+    if r[0] == "fault":
+        return f"AFault {'Rd' if r[1] == 'R' else 'Wr'} {int(r[2])} {int(r[3])}"
+    if r[0] == "fuel":
+        return "AFuel"
+    raise ValueError(r)
+
+
+def _nll(ll):
+    return "[" + "; ".join(_nl(l) for l in ll) + "]"
+
+
+def _index_cases(rng, n):
+    """index (any batch size, truncate flag) followed by the single-term queries, an exact phrase and the statistics:
+    the path on which the `rev` directive and the single-pass reduceat of Index/Fast.v are used by the binary."""
+    out = []
+    for _ in range(n):
+        nd = rng.randint(1, 5)
+        vocab = rng.randint(1, 4)
+        docs = []
+        for _ in range(nd):
+            ln = rng.choice([0, 1, 2, 3, 5, 17, 18, 19, 20, 37, 40])
+            docs.append([rng.randint(1, vocab) for _ in range(ln)])
+        t = rng.randint(1, vocab + 1)
+        ph = [rng.randint(1, vocab) for _ in range(rng.randint(2, 3))]
+        tr = rng.randint(0, 1)
+        bs = rng.randint(1, nd + 1)
+        qs = [["tf", t], ["df", t], ["pos", t], ["phrase", ph], ["lens"], ["n"], ["total"]]
+        lhs = (f"match index_opt_g {'true' if tr else 'false'} {bs}%nat {_nll(docs)} with AOk ix => Some (termfreqs ix {t}, "
+               f"docfreq ix {t}, positions ix {t}, phrase_freqs ix {_nl(ph)}, doclengths ix, corpus_size ix, total_len ix) "
+               "| _ => None end")
+
+        def rhs(r):
+            if r[0] != "ok":
+                return "None"
+            a = r[1]
+            return ("Some (" + ", ".join([_api(a[0], _nl), _api(a[1], lambda x: str(int(x))), _api(a[2], _nll),
+                                          _api(a[3], _nl), _nl(a[4][1]), str(int(a[5][1])), str(int(a[6][1]))]) + ")")
+        out.append({"req": C.sx(["index_query", tr, bs, docs, qs]), "lhs": lhs, "rhs": rhs})
+    return out
+
+
+def _range_cases(rng, n):
+    """index, then term and phrase frequencies restricted to a position range (aligned and unaligned bounds)"""
+    out = []
+
+    def opt(v):
+        return "None" if v is None else f"(Some {v})"
+
+    def osx(v):
+        return "none" if v is None else ["some", v]
+    for _ in range(n):
+        nd = rng.randint(1, 4)
+        vocab = rng.randint(1, 3)
+        docs = [[rng.randint(1, vocab) for _ in range(rng.choice([0, 2, 17, 19, 37, 60]))] for _ in range(nd)]
+        t = rng.randint(1, vocab + 1)
+        ph = [rng.randint(1, vocab) for _ in range(2)]
+        lo = rng.choice([None, 0, 18, 36, 5, 54])
+        hi = rng.choice([None, 17, 35, 53, 20, 71])
+        bs = rng.randint(1, nd + 1)
+        qs = [["tfr", t, osx(lo), osx(hi)], ["phraser", ph, osx(lo), osx(hi)]]
+        lhs = (f"match index_opt_g false {bs}%nat {_nll(docs)} with AOk ix => Some (termfreqs_range ix {t} {opt(lo)} {opt(hi)}, "
+               f"phrase_freqs_range ix {_nl(ph)} {opt(lo)} {opt(hi)}) | _ => None end")
+
+        def rhs(r):
+            if r[0] != "ok":
+                return "None"
+            return "Some (" + _api(r[1][0], _nl) + ", " + _api(r[1][1], _nl) + ")"
+        out.append({"req": C.sx(["index_query", 0, bs, docs, qs]), "lhs": lhs, "rhs": rhs})
+    return out
+
+
 PROVIDERS = {
     "C11": ("From SA Require Import Base.Prelude Solr.MM Solr.MM_Spec.\nOpen Scope Z_scope.\n", _mm_cases, 150),
     "C12": ("From SA Require Import Base.Prelude Kernels.Intersect.\nOpen Scope N_scope.\n", _intersect_cases, 120),
     "C14": ("From SA Require Import Base.Prelude Kernels.Intersect.\nOpen Scope N_scope.\n", _intersect_cases, 120),
+    "C01": ("From SA Require Import Base.Prelude Index.Index Index.Truncate Query.Phrase.\nOpen Scope N_scope.\n", _index_cases, 80),
+    "C02": ("From SA Require Import Base.Prelude Index.Index Index.Truncate Query.Phrase.\nOpen Scope N_scope.\n", _index_cases, 80),
+    "C05": ("From SA Require Import Base.Prelude Index.Index Index.Truncate Query.Phrase.\nOpen Scope N_scope.\n", _index_cases, 80),
+    "C17": ("From SA Require Import Base.Prelude Index.Index Index.Truncate Query.Phrase.\nOpen Scope N_scope.\n", _index_cases, 80),
+    "C03": ("From SA Require Import Base.Prelude Index.Index Index.Truncate Query.Phrase.\nOpen Scope N_scope.\n", _index_cases, 80),
+    "C16": ("From SA Require Import Base.Prelude Index.Index Index.Truncate Query.Phrase Query.Range.\nOpen Scope N_scope.\n", _range_cases, 80),
     "C13": ("From SA Require Import Base.Prelude Codec.Codec.\nOpen Scope N_scope.\n", _codec_cases, 120),
 }
 
